@@ -247,6 +247,7 @@ SPEC_STEPS = [
     ("set", "lo", 7.5),
     ("set", "hi", 9.0),
     ("set", "logE", 11.0),
+    ("refused",),  # a power law on a band of zero width is configured, the call (refused, or whatever it does) is made, and the band is put back
 ]
 
 
@@ -263,7 +264,11 @@ def judge_live_history(seq):
     def obs(s):
         with RngStub(feeds=[tt.copy()]).installed():
             le, nrm, ws = s(len(tt))
-        return np.asarray(le, dtype=float).tobytes(), float(nrm), float(ws)
+        r = np.asarray(le, dtype=float).tobytes(), float(nrm), float(ws)
+        # (the energies returned are the caller's: they are overwritten before the next call)
+        if isinstance(le, np.ndarray) and le.flags.writeable:
+            le[...] = -1.0
+        return r
 
     # pass 1: the configurations in force after every step, and what a fresh sampler returns for each
     cur = {"type": "power", "index": 2.2, "lo": 6.5, "hi": 11.5}
@@ -274,6 +279,8 @@ def judge_live_history(seq):
         if op[0] == "replace":
             cur = dict(op[1])
             applied.append(op)
+        elif op[0] == "refused":
+            applied.append(op if cur["type"] == "power" else None)
         else:
             _, k, v = op
             if (k == "logE") != (cur["type"] == "mono") or (k in ("lo", "hi") and not ({**cur, k: v}["lo"] < {**cur, k: v}["hi"])):
@@ -293,6 +300,16 @@ def judge_live_history(seq):
                 continue
             if op[0] == "replace":
                 cfg.simulation.spectrum = make_config(dict(op[1])).simulation.spectrum
+            elif op[0] == "refused":
+                spx = cfg.simulation.spectrum
+                hi0 = spx.upper_bound
+                try:
+                    spx.upper_bound = spx.lower_bound
+                    obs(sp)
+                except Exception:
+                    pass
+                finally:
+                    spx.upper_bound = hi0
             else:
                 _, k, v = op
                 setattr(cfg.simulation.spectrum, {"index": "index", "lo": "lower_bound", "hi": "upper_bound", "logE": "log_nu_energy"}[k], v)
